@@ -19,6 +19,7 @@ package tso
 import (
 	"time"
 
+	"github.com/pingcap/kvproto/pkg/pdpb"
 	"go.etcd.io/etcd/clientv3"
 )
 
@@ -52,4 +53,18 @@ func VerifTSO(a Allocator) (physical time.Time, logical int64, lastSaved time.Ti
 		lastSaved = v.(time.Time)
 	}
 	return
+}
+
+// VerifSyncMaxTS, when set by a verification harness, is called by the global allocator's SyncMaxTS in the goroutine
+// of every request: with stage "send" before the request is sent (it may block to realise a chosen interleaving) and
+// with stage "recv" after the reply arrived. An error returned at "recv" replaces the reply (a reply lost on the way).
+var VerifSyncMaxTS func(stage, target string, req *pdpb.SyncMaxTSRequest, resp *pdpb.SyncMaxTSResponse, err error) error
+
+func verifSyncMaxTS(stage, target string, req *pdpb.SyncMaxTSRequest, r *syncResp) {
+	if VerifSyncMaxTS == nil {
+		return
+	}
+	if err := VerifSyncMaxTS(stage, target, req, r.rpcRes, r.err); err != nil {
+		r.rpcRes, r.err = nil, err
+	}
 }
